@@ -1,8 +1,7 @@
 import Driver.Util
 import ReplicatModel.Repo
 open Lean Replicat Replicat.Repo
-namespace Driver
-
+namespace Driver.HRepo
 def nameJson : Repo.Name → Json
   | .config => Json.arr #[Json.str "config"]
   | .chunk f c => Json.arr #[Json.str "chunk", jnat f, jnat c]
@@ -165,4 +164,6 @@ def handleRepo (op : String) (j : Json) : Except String Json := do
     pure (Json.mkObj [("accepts", Json.bool (acceptsPrefix (planOf enc s o) tr)), ("store_after_prefix", storeJson (applyMuts s tr))])
   | _ => throw s!"unknown op {op}"
 
-end Driver
+end Driver.HRepo
+
+def Driver.handleRepo := Driver.HRepo.handleRepo
